@@ -561,6 +561,30 @@ def name_flavour_rule(chk, P, key, doc, select, families, module_stems, floor):
     chk.ob(key, doc, f)
 
 
+def linear_types_rule(chk, P, key, doc, types):
+    """The listed types stand for exactly one obligation each (a span to complete once, a frame to close once, a channel half whose drop
+    closes the channel, a slot initialised once): none of them is Clone or Copy - a copy would discharge the obligation twice (two
+    completions, the channel closed while its twin still sends) - `types` maps a type path prefix to the reason."""
+    def f():
+        ev = []
+        seen = {t: False for t in types}
+        for a in P.adts.values():
+            for t in types:
+                if a["path"] == t:
+                    seen[t] = True
+        missing = [t for t, ok in seen.items() if not ok]
+        if missing:
+            raise mir.AnchorMissing("the type %s" % missing[0])
+        for i in P.impls:
+            if i.get("trait") not in ("core::clone::Clone", "core::marker::Copy"):
+                continue
+            st = mir._strip_lifetimes(i.get("self_ty") or "").split("<")[0]
+            if st in types:
+                return False, ("`impl %s for %s` at %s: %s" % (i["trait"].rsplit("::", 1)[-1], i["self_ty"], i.get("span"), types[st])), [], i.get("span")
+        return True, "", sorted(types)
+    chk.ob(key, doc, f)
+
+
 def config_wiring_rule(chk, P, key, doc, body_keys, floor):
     """Configuration reaches its consumer unchanged: inside the given builder methods, wherever a field of `self` is handed to a
     like-named parameter of a workspace function, or stored in a like-named field of a workspace struct, it is exactly `self.<name>`
